@@ -117,7 +117,94 @@ theorem find_total (op : Op) (refset : TSet) (sels : List TSel) (res : Res)
   · have hv' : ¬ (plan op refset res.len).1 > (plan op refset res.len).2.1 := by omega
     simp [hv']
 
+/-! ### reference sets that hold a selection more than once -/
+
+theorem mem_distinctItems (l : List TSel) (x : TSel) : x ∈ distinctItems l ↔ x ∈ l := by
+  induction l with
+  | nil => simp [distinctItems]
+  | cons a l ih =>
+    simp only [distinctItems, List.mem_cons, List.mem_filter, ih, bne_iff_ne, ne_eq]
+    constructor
+    · rintro (h | ⟨h, _⟩)
+      · exact Or.inl h
+      · exact Or.inr h
+    · rintro (h | h)
+      · exact Or.inl h
+      · by_cases hx : x = a
+        · exact Or.inl hx
+        · exact Or.inr ⟨h, hx⟩
+
+theorem nodup_distinctItems (l : List TSel) : (distinctItems l).Nodup := by
+  induction l with
+  | nil => simp [distinctItems]
+  | cons a l ih =>
+    simp only [distinctItems, List.nodup_cons, List.mem_filter, bne_self_eq_false, Bool.false_eq_true, and_false,
+      not_false_eq_true, true_and]
+    exact ih.filter _
+
+theorem distinctItems_of_nodup (l : List TSel) (h : l.Nodup) : distinctItems l = l := by
+  induction l with
+  | nil => rfl
+  | cons a l ih =>
+    rw [List.nodup_cons] at h
+    simp only [distinctItems, ih h.2]
+    congr 1
+    apply List.filter_eq_self.mpr
+    intro y hy
+    simp only [bne_iff_ne, ne_eq]
+    intro e; subst e; exact h.1 hy
+
+/-- **each once, whatever the reference set holds**: the search with any reference set is the search with its
+distinct members; for every operator/modifier combination other than plain equality it returns exactly the known
+selections related to them, the references themselves excluded, each once. -/
+theorem search_exact (op : Op) (refset : TSet) (sels : List TSel) (res : Res)
+    (hop : specialFor op refset.distinct = false) (hnd : sels.Nodup) (hsel : SelsWF sels res)
+    (href : ∀ r ∈ refset.items, r.b ≤ r.e) :
+    ∃ l, search op refset sels res = .ok l ∧ l.Nodup ∧
+      ∀ t, t ∈ l ↔ (t ∈ sels ∧ setTest op refset.distinct t res = true ∧ t ∉ refset.items) := by
+  obtain ⟨l, h1, h2, h3⟩ := find_exact op refset.distinct sels res hop hnd hsel
+    (by intro r hr; exact href r ((mem_distinctItems _ _).mp hr))
+  refine ⟨l, h1, h2, ?_⟩
+  intro t
+  rw [h3]
+  simp only [TSet.distinct, mem_distinctItems]
+
+/-- plain equality returns the known selections among the references, each once — also when the reference set holds one
+of them several times -/
+theorem search_equals_each_once (refset : TSet) (sels : List TSel) (res : Res) :
+    ∃ l, search (.equals false false) refset sels res = .ok l ∧ l.Nodup ∧ ∀ t ∈ l, t ∈ refset.items ∧ t ∈ sels := by
+  unfold search find
+  simp only [specialFor, ↓reduceIte, equalsSpecial]
+  split
+  next h =>
+    refine ⟨_, rfl, nodup_distinctItems _, ?_⟩
+    intro t ht
+    refine ⟨(mem_distinctItems _ _).mp ht, ?_⟩
+    have := List.all_eq_true.mp h t ht
+    simpa using this
+  next => exact ⟨[], rfl, by simp, by simp⟩
+
+/-- a reference set that holds one selection, however many times, is searched as that selection is: equality with the
+`all` modifier returns it -/
+theorem search_repeated_single (op : Op) (r : TSel) (k : Nat) (srt : Bool) (sels : List TSel) (res : Res) :
+    search op ⟨List.replicate (k + 1) r, srt⟩ sels res = search op ⟨[r], srt⟩ sels res := by
+  have : ∀ k, distinctItems (List.replicate (k + 1) r) = [r] := by
+    intro k
+    induction k with
+    | zero => simp [distinctItems]
+    | succ k ih =>
+      rw [List.replicate_succ, distinctItems, ih]
+      simp
+  simp [search, TSet.distinct, this, distinctItems]
+
+/-- a reference set without repeated members is searched as it is -/
+theorem search_of_nodup (op : Op) (refset : TSet) (sels : List TSel) (res : Res) (h : refset.items.Nodup) :
+    search op refset sels res = find op refset sels res := by
+  simp [search, TSet.distinct, distinctItems_of_nodup _ h]
+
 /-! ### Non-vacuity -/
+example : search (.equals true false) ⟨[⟨0, 2⟩, ⟨0, 2⟩], false⟩ [⟨3, 5⟩, ⟨0, 2⟩] ⟨List.replicate 5 false⟩ = .ok [⟨0, 2⟩] := by decide
+example : search (.equals false false) ⟨[⟨0, 2⟩, ⟨3, 5⟩, ⟨0, 2⟩], false⟩ [⟨3, 5⟩, ⟨0, 2⟩] ⟨List.replicate 5 false⟩ = .ok [⟨0, 2⟩, ⟨3, 5⟩] := by decide
 example : find (.overlaps false false) ⟨[⟨4, 7⟩], false⟩ [⟨0, 2⟩, ⟨3, 5⟩, ⟨6, 8⟩, ⟨4, 7⟩, ⟨8, 8⟩] ⟨List.replicate 8 false⟩
     = .ok [⟨3, 5⟩, ⟨6, 8⟩] := by decide
 example : find (.embeds false false) ⟨[⟨0, 8⟩], false⟩ [⟨8, 8⟩, ⟨0, 8⟩] ⟨List.replicate 8 false⟩ = .ok [⟨8, 8⟩] := by decide
